@@ -47,6 +47,11 @@ M = [
     ('df-mean-on-old-count', 'streamz/dataframe/aggregations.py', "            totals = totals - old.sum()\n            counts = counts - old.count()\n        return (totals, counts), self._mean(totals, counts)", "            totals = totals - old.sum()\n            counts = counts - len(old)\n        return (totals, counts), self._mean(totals, counts)", ['C07']),
     ('df-cumulative-no-ffill', 'streamz/dataframe/core.py', "    new_state = result.ffill().iloc[-1:]\n", "    new_state = result.iloc[-1:]\n", ['C11']),
     ('df-cumulative-drops-first', 'streamz/dataframe/core.py', "    if len(state):\n        result = result[1:]\n    return new_state, result", "    result = result[1:]\n    return new_state, result", ['C11']),
+    ('map-drops-kwargs', 'streamz/core.py', "            result = self.func(x, *self.args, **self.kwargs)\n        except Exception as e:\n            logger.exception(e)\n            raise\n        else:\n            return self._emit(result, metadata=metadata)\n\n\n@Stream.register_api()\nclass map_async",
+     "            result = self.func(x, *self.args)\n        except Exception as e:\n            logger.exception(e)\n            raise\n        else:\n            return self._emit(result, metadata=metadata)\n\n\n@Stream.register_api()\nclass map_async", ['C01']),
+    ('filter-ignores-args', 'streamz/core.py', "        if self.predicate(x, *self.args, **self.kwargs):", "        if self.predicate(x, **self.kwargs):", ['C01']),
+    ('pluck-list-order', 'streamz/core.py', "            return self._emit(tuple([x[ind] for ind in self.pick]),", "            return self._emit(tuple([x[ind] for ind in sorted(self.pick, key=str)]),", ['C01']),
+    ('partition-key-nocall', 'streamz/core.py', "        if callable(self._key):\n            return self._key(x)\n        return x[self._key]", "        if callable(self._key):\n            return self._key(x)\n        return self._key", ['C01']),
     ('zip-maxsize-off', 'streamz/core.py', "        elif len(L) > self.maxsize:", "        elif len(L) > self.maxsize + 1:", ['C03']),
 ]
 
